@@ -5,7 +5,6 @@
 From RV Require Import Base.Prelude Base.IdSet Base.IdSetProofs M.ConfChange.
 
 Local Open Scope N_scope.
-Set Default Timeout 30.
 
 (* ------------------------------------------------------------------ *)
 (* Validity                                                            *)
